@@ -84,4 +84,20 @@ example : (Int64.minValue ≤ Int64.minValue + 1) ∧ normMin 2 ≤ normMax 5 :=
 
 theorem small_source : Rapid.Generated.c_small = small.toNat := by decide
 
+/-- the bounds of every integer kind (the sized generators differ from the modelled 64-bit ones
+    only by this table): each kind spans exactly its Go type -/
+theorem integer_kinds_source : Rapid.Generated.src_integerKinds =
+    ["byteKind: size=1 umax=math.MaxUint8",
+     "intKind: signed=true size=intSize / 8 smin=math.MinInt smax=math.MaxInt",
+     "int8Kind: signed=true size=1 smin=math.MinInt8 smax=math.MaxInt8",
+     "int16Kind: signed=true size=2 smin=math.MinInt16 smax=math.MaxInt16",
+     "int32Kind: signed=true size=4 smin=math.MinInt32 smax=math.MaxInt32",
+     "int64Kind: signed=true size=8 smin=math.MinInt64 smax=math.MaxInt64",
+     "uintKind: size=uintSize / 8 umax=math.MaxUint",
+     "uint8Kind: size=1 umax=math.MaxUint8",
+     "uint16Kind: size=2 umax=math.MaxUint16",
+     "uint32Kind: size=4 umax=math.MaxUint32",
+     "uint64Kind: size=8 umax=math.MaxUint64",
+     "uintptrKind: size=uintptrSize / 8 umax=maxUintptr"] := by decide
+
 end Rapid.C03
